@@ -272,21 +272,6 @@ theorem generic_settings (opts : List OptInst) (c : Config) (hv : AllValid opts)
         fillLogger .generic_Driver_Logger (afterPass .generic_Driver opts c) .generic_Driver_Logger :=
   constructGeneric_field c hv
 
-/-- the declarative reading of each constructor: every field computed on its own from the options
-that name it (see `specGeneric`, `specNetwork`, `specNetconf`) -/
-def specConfig (k : Ctor) (opts : List OptInst) (c : Config) : Except Err Config :=
-  match k with
-  | .generic => .ok (specGeneric opts c)
-  | .network => specNetwork opts c
-  | .netconf => .ok (specNetconf opts c)
-  | .logging => .ok (afterPass .logging_Instance opts c)
-
-/-- the options a constructor really applies (NETCONF adds its connection flag) -/
-def effective (k : Ctor) (opts : List OptInst) : List OptInst :=
-  match k with
-  | .netconf => opts ++ [netconfConnectionOpt]
-  | _ => opts
-
 /-- All four constructors, all settings at once, any option list of any length: when no option
 fails, the driver that comes back is exactly the declarative one — every field of every object
 that is built holds what the options naming it leave there in list order starting from the
@@ -490,6 +475,34 @@ theorem platform_value_of_documented_type_accepted (name : Bytes) (v : YVal) (e 
     have hc : e.asserted.contains v.goType = true := h.1
     simp only [hc, if_true]
     exact ⟨_, rfl, rfl⟩
+
+open Scrapli.Gen.PlatformOptions in
+/-- The options block as the code translates it is the options block the property demands
+(`platformOptSpec`: accept exactly the documented type), whenever the latter is defined. -/
+theorem platformOpt_meets_spec (name : Bytes) (v : YVal) (oi : OptInst)
+    (h : platformOptSpec name v = some oi) : platformOpt name v = some oi := by
+  unfold platformOptSpec at h
+  cases he : findEntry name with
+  | none => simp [he] at h
+  | some e =>
+    have hmem : e ∈ entries := List.mem_of_find?_eq_some he
+    have ht := List.all_eq_true.1 platform_option_names_total e hmem
+    unfold platformOpt
+    simp only [he] at h ⊢
+    cases ho : e.opt with
+    | none => simp [ho] at h
+    | some o =>
+      simp only [ho] at h ht ⊢
+      by_cases hd : (e.documented == "") = true
+      · simpa [hd] using h
+      · simp only [hd, if_false, Bool.false_eq_true] at h ht ⊢
+        by_cases hv : (documentedGoType e.documented == some v.goType) = true
+        · have hv' : documentedGoType e.documented = some v.goType := by simpa using hv
+          simp only [hv, if_true] at h
+          simp only [hv', Bool.and_eq_true] at ht
+          simp only [ht.1, if_true]
+          exact h
+        · simp [hv] at h
 
 /-- `netconf.NewDriver` hands the logger of the generic driver it is built from to the NETCONF
 driver (so `WithLogger` / `WithDefaultLogger` land on the driver the user gets back). -/
